@@ -38,6 +38,10 @@ def kf_table():
                                                json.dumps(k.get("match", {})).replace("|", "\\|")))
     return "\n".join(rows)
 
+def short(t, n):
+    t = " ".join(t.split())
+    return t if len(t) <= n else t[:n].rsplit(" ", 1)[0] + " …"
+
 def seed_table():
     p = os.path.join(ROOT, "seeded", "results.json")
     if not os.path.exists(p):
@@ -56,7 +60,7 @@ def seed_table():
                 pass
         if not e.get("applies"):
             rows.append("| %s | %s | %s | — | patch no longer applies to the repaired tree (%s) |" % (
-                d, meta.get("summary", "")[:160].replace("|", "\\|"), meta.get("manifests_when", "")[:120].replace("|", "\\|"),
+                d, short(meta.get("summary", ""), 150).replace("|", "\\|"), short(meta.get("manifests_when", ""), 110).replace("|", "\\|"),
                 e.get("apply_error", "")[:60].replace("|", "\\|")))
             continue
         for q, c in (e.get("checks") or {}).items():
@@ -69,9 +73,9 @@ def seed_table():
                 missed += 1
                 outcome = "MISSED"
             rows.append("| %s | %s | %s | ./check %s | %s |" % (
-                d, meta.get("summary", "")[:200].replace("|", "\\|"), meta.get("manifests_when", "")[:160].replace("|", "\\|"), q, outcome))
+                d, short(meta.get("summary", ""), 150).replace("|", "\\|"), short(meta.get("manifests_when", ""), 110).replace("|", "\\|"), q, outcome))
     rows.append("")
-    rows.append("Caught %d, missed %d (quick tier, seed 1). Missed changes and what was done about them are discussed below the table." % (caught, missed))
+    rows.append("Caught %d, missed %d (quick tier, seed 1; one row per seeded change and check). The history of the changes that were missed at first is below the table." % (caught, missed))
     return "\n".join(rows)
 
 def main():
